@@ -119,9 +119,23 @@ def run(prop, tier, seed, replay, UNITS, build_unit, run_verus, scan_assumptions
         canaries['n'] += c.get('n', 0)
         canaries['failed_as_expected'] += c.get('failed_as_expected', 0)
         all_assumptions += [u + ': ' + a for a in scan_assumptions(gen['text'])]
+        real_fns = {e.get('fn') for e in r.get('failures', []) if e.get('clause_kind') != 'hint' and not e.get('in_prelude')
+                    and prop in (e.get('tags') or [])}
         for e in r.get('failures', []):
-            if prop in (e.get('tags') or []) or e.get('in_prelude'):
-                failed.setdefault(failure_obligation(e), []).append(dict(e, unit=u))
+            if e.get('in_prelude'):
+                # a lemma of the specification text no longer proves (an extracted type changed shape): the proof is
+                # broken, nothing is known about the property -> tool limit, bounded fallback
+                undecided.append((u, 'spec-lemma-failed', (e.get('message') or '') + ' @ ' + str(e.get('where'))))
+                continue
+            if prop not in (e.get('tags') or []):
+                continue
+            if e.get('clause_kind') == 'hint' and e.get('fn') not in real_fns:
+                # only a ghost hint block (my scaffolding, not an obligation derived from the property) fails in this
+                # function while every contract clause and safety obligation of it still verifies: the proof is
+                # incomplete, not refuted -> tool limit, bounded fallback
+                undecided.append((u, 'proof-hint-failed', '%s @ %s' % (e.get('clause'), e.get('fn'))))
+                continue
+            failed.setdefault(failure_obligation(e), []).append(dict(e, unit=u))
         for e in r.get('limits', []):
             if prop in (e.get('tags') or []) or not e.get('tags'):
                 undecided.append((u, 'rlimit', e.get('message', '')[:200] + ' @ ' + str(e.get('fn'))))
